@@ -118,7 +118,8 @@ func (d *drv) checkHeld(h heldBlob, when string) {
 	}
 	m, o := fromBytes(h.b, h.opts...)
 	if o.Class != "ok" || m.Root().BigInt().Cmp(h.root) != 0 {
-		d.rep.Fail("c13-blob-overwritten", "a blob kept across later MarshalBinary calls no longer restores to its merklizer "+when+": "+o.Msg, h.in)
+		// the bytes are unchanged: not aliasing, the restore itself misbehaves
+		d.rep.Fail("c13-restore-"+o.Class, "an (unchanged) blob kept across later MarshalBinary calls does not restore to its merklizer "+when+": "+o.Msg, h.in)
 	}
 }
 
@@ -1089,12 +1090,41 @@ func (d *drv) singles(s *scen, in Input) {
 			pool = append(pool, mzrun.View(e))
 		}
 	}
-	for _, ev := range pool {
+	// stand-alone entries: every entry is encoded first and ALL blobs are kept while the others
+	// are encoded; only then are they compared with their snapshots and decoded
+	blobs := make([][]byte, len(pool))
+	snaps := make([][]byte, len(pool))
+	for i, ev := range pool {
 		e := ev.Entry
 		b, err := e.MarshalBinary()
 		if err != nil {
 			d.rep.Fail("c13-single-marshal", fmt.Sprintf("RDFEntry.MarshalBinary(%v): %v", ev.Parts, err), in)
 			continue
+		}
+		blobs[i], snaps[i] = b, append([]byte(nil), b...)
+	}
+	for i := range pool {
+		if blobs[i] != nil && !bytes.Equal(blobs[i], snaps[i]) {
+			d.rep.Fail("c13-entry-blob-overwritten", fmt.Sprintf("the byte slice returned by RDFEntry.MarshalBinary(%v) changed when other entries were encoded afterwards", pool[i].Parts), in)
+			break
+		}
+	}
+	var reused merklize.RDFEntry // one receiver decoded into again and again
+	for i, ev := range pool {
+		e := ev.Entry
+		b := blobs[i]
+		if b == nil {
+			continue
+		}
+		if o := mzrun.Guard(10*time.Second, func() error { return reused.UnmarshalBinary(b) }); o.Class != "ok" {
+			d.rep.Fail("c13-single-"+o.Class, fmt.Sprintf("decoding %v into a reused receiver: %s", ev.Parts, o.Msg), in)
+		} else {
+			rv := mzrun.View(reused)
+			okv, _ := sameValue(ev.Value, rv.Value)
+			if !sameParts(ev.Parts, rv.Parts) || !okv || ev.Datatype != rv.Datatype {
+				d.rep.Fail("c13-entry-reused-receiver", fmt.Sprintf("entry %v (%v, datatype %q) decoded into a receiver that held another entry reads %v (%v, datatype %q)",
+					ev.Parts, ev.Value, ev.Datatype, rv.Parts, rv.Value, rv.Datatype), in)
+			}
 		}
 		for recv := 0; recv <= 1; recv++ {
 			// a zero receiver uses the package default hasher: hashes are comparable with the
@@ -1135,6 +1165,53 @@ func (d *drv) singles(s *scen, in Input) {
 			s.singles = append(s.singles, so)
 		}
 	}
+}
+
+// deepPair returns two property IRIs whose single-part path keys (default Poseidon hasher)
+// agree on at least their 31 lowest bits but not on 39: a known pair is re-verified, a birthday
+// search over generated names runs only if it no longer holds.
+func deepPair() (string, string, int) {
+	key := func(iri string) *big.Int {
+		p, err := merklize.Options{Hasher: merklize.PoseidonHasher{}}.NewPath(iri)
+		if err != nil {
+			return nil
+		}
+		k, err := p.MtEntry()
+		if err != nil {
+			return nil
+		}
+		return k
+	}
+	shared := func(a, b *big.Int) int {
+		n := 0
+		for n < 64 && a.Bit(n) == b.Bit(n) {
+			n++
+		}
+		return n
+	}
+	const base = "https://example.com/vocab#field"
+	a, b := base+"10223", base+"25948"
+	if ka, kb := key(a), key(b); ka != nil && kb != nil {
+		if n := shared(ka, kb); n >= 31 && n < 39 {
+			return a, b, n
+		}
+	}
+	seen := map[uint64]string{}
+	for i := 0; i < 200000; i++ {
+		iri := fmt.Sprintf("%s%d", base, i)
+		k := key(iri)
+		if k == nil {
+			continue
+		}
+		low := new(big.Int).And(k, big.NewInt(1<<31-1)).Uint64()
+		if other, ok := seen[low]; ok {
+			if n := shared(k, key(other)); n >= 31 && n < 39 {
+				return other, iri, n
+			}
+		}
+		seen[low] = iri
+	}
+	return "", "", 0
 }
 
 // ---- hand-built streams ----
@@ -1624,6 +1701,17 @@ func Run(cfg *common.Config) (*common.Report, error) {
 		if i%17 == 0 {
 			rep.Sample(map[string]any{"stream": "docgen", "doc": string(doc.Bytes), "hasher": hi, "cfg": in.Cfg})
 		}
+	}
+	// two root properties whose path keys share their 31 lowest bits: the leaves sit at depth
+	// >= 32 of the 40-level tree; a restored tree must have room for them too
+	if a, b, bits := deepPair(); a != "" {
+		rep.Count(fmt.Sprintf("deep-pair:shared-low-bits:%d", bits))
+		for _, cfgd := range []bool{false, true} {
+			doc := fmt.Sprintf(`{"@id":"urn:deep:1","@type":"https://example.com/vocab#Thing",%q:"first",%q:{"@value":"-12345678901234567890123","@type":"http://www.w3.org/2001/XMLSchema#integer"},"https://example.com/vocab#flag":true,"https://example.com/vocab#list":["a","b"]}`, a, b)
+			d.scenario(Input{Stream: "deep-pair", Doc: json.RawMessage(doc), Hasher: 0, Cfg: cfgd, DocPaths: []string{"nope"}})
+		}
+	} else {
+		rep.Count("deep-pair:none-found")
 	}
 	nCraft := cfg.Pick(30, 300)
 	for i := 0; i < nCraft; i++ {
